@@ -5,7 +5,7 @@ PID = "C05"
 MIX = [("full", {}), ("extfull", {}), ("file", {}), ("extbound", {}), ("names", {}), ("dirc", {}), ("names", {"dostype": 4, "latin": True}), ("dircfull", {}), ("pagecross", {}), ("bigrm", {}), ("dircspill", {}), ("dircgrow", {})]
 RULE = ('every quiescent point of seeded histories over files of every size class: allocated set = reachable + reserved (no leak), reported free count = model count (exact on non-DIRCACHE flavours), refill after delete')
 def run(res):
-    histprop.run(res, PID, MIX, {"C05"}, RULE, nquick=60, nthorough=1500)
+    histprop.run(res, PID, MIX, {"C05", "MF"}, RULE, nquick=60, nthorough=1500)
     # undelete (adf_salv.c, not modelled): decided on the real code by the probe of props/undel.py
     if not res.violations:
         exe = vlib.build_harness("asan")
